@@ -532,7 +532,7 @@ func (r *Raft) setCommitIndex(index uint64) (configCommitted bool) {
 			r.setState(Follower)
 			r.setLeader(0)
 		}
-		if r.shutdownOnRemove && wasMember {
+		if r.shutdownOnRemove && wasMember && r.configs.Latest.Index != r.removedAtStart {
 			if _, ok := r.configs.Latest.Nodes[r.nid]; !ok {
 				r.doClose(ErrNodeRemoved)
 			}
